@@ -1,0 +1,8 @@
+//go:build !verif
+
+package mcp
+
+import "net/http"
+
+// verifYield is a scheduling point for the verification harness; a no-op in normal builds.
+func verifYield(point string, r *http.Request) {}
